@@ -132,7 +132,8 @@ Fixpoint dexpr_eqb (x y:dexpr) : bool :=
 Inductive abyte : Type :=
 | ABits (l:list bt)                                 (* 8 symbolic bits, least significant first *)
 | ADbl (n:nat) (s:bool) (p:Z) (d:dexpr) (i:nat)     (* byte i of AddNByte[U]Double(d, p) *)
-| AOpq.                                             (* a byte the check knows nothing about (text) *)
+| AStr (len:Z) (a:nat) (i:nat)                      (* byte i of AddStr(text a, len) *)
+| AOpq.                                             (* a byte the check knows nothing about (AIS text) *)
 
 Definition byte_of (v:av) (i:nat) : abyte := ABits (map (fun t => bit_at v (8 * i + t)) (seq 0 8)).
 
@@ -150,9 +151,40 @@ Fixpoint aset (g:aenv) (w:wstmt) (ap:list abyte) : option (list abyte) :=
                        | DArg _ | DConst _ => Some (ap ++ map (ADbl n s p d) (seq 0 n))
                        | _ => None
                        end
-  | WStr len a => if 0 <=? len then Some (ap ++ repeat AOpq (Z.to_nat len)) else None
+  | WStr len a => if 0 <=? len then Some (ap ++ map (AStr len a) (seq 0 (Z.to_nat len))) else None
   | WAISStr len a => if (0 <=? len) && (Z.of_nat (length ap) + len <=? max_data_len) then Some (ap ++ repeat AOpq (Z.to_nat len)) else None
   | _ => None
+  end.
+
+(* expressions whose evaluation is never undefined: no double -> integer conversion *)
+Fixpoint d2i_free (e:iexpr) : bool :=
+  match e with
+  | EArg _ | ESlot _ | EConst _ | EPgn | EDataLen | EDLt _ _ | EDLe _ _ | EDEq _ _ => true
+  | EAnd a b | EOr a b | EXor a b | EAdd a b | ESub a b | EMul a b | EDiv a b | EEq a b | ENe a b | ELt a b | ELe a b => d2i_free a && d2i_free b
+  | EShl a _ | EShr a _ | ENot a | ECast _ _ a | EBool a | ELNot a => d2i_free a
+  | ECond c a b => d2i_free c && d2i_free a && d2i_free b
+  | ED2I _ _ _ => false
+  end.
+
+(* abstract run of a setter body that keeps going as far as it can (used for the layouts, where a known prefix of the payload is
+   enough): integer fields it cannot express and two-armed conditionals whose arms write the same number of bytes become opaque
+   bytes; at the first statement it cannot handle (repeated records, arms of different length, variable strings) it stops.
+   The boolean tells whether the whole body was processed. *)
+Fixpoint aset_pre (g:aenv) (w:wstmt) (ap:list abyte) : list abyte * bool :=
+  match w with
+  | WSkip => (ap, true)
+  | WSeq a b => let '(ap1, f1) := aset_pre g a ap in if f1 then aset_pre g b ap1 else (ap1, false)
+  | WInt n e => match abs g e with
+                | Some v => (ap ++ map (byte_of v) (seq 0 n), true)
+                | None => if d2i_free e then (ap ++ repeat AOpq n, true) else (ap, false)
+                end
+  | WIf c t e =>
+    if d2i_free c then
+      let '(a1, f1) := aset_pre g t ap in
+      let '(a2, f2) := aset_pre g e ap in
+      if f1 && f2 && Nat.eqb (length a1) (length a2) then (ap ++ repeat AOpq (length a1 - length ap), true) else (ap, false)
+    else (ap, false)
+  | _ => match aset g w ap with Some ap' => (ap', true) | None => (ap, false) end
   end.
 
 (* ---------------------------------------------------------------- abstract run of a parser *)
